@@ -158,6 +158,79 @@ def gen_case(rng, cid, tier):
             "conn": conn, "nPe": nPe}
 
 
+LAYOUTS = ["F", "T", "neg", "negl", "strided"]
+
+
+def add_layouts(rng, case):
+    """memory layout / array class of every element array handed to the assembly (same logical values)"""
+    def pick(four):
+        out = []
+        for x in four:
+            if x is None or rng.random() < 0.45:
+                out.append(None)
+            else:
+                out.append(("fe:" if rng.random() < 0.5 else "") + rng.choice(LAYOUTS + ["C"]))
+        return out
+    if case.get("kcmf"):
+        case["layouts"] = {str(g): pick(four) for table in case["tables"] for g, four in table}
+        return
+    for op in case["ops"]:
+        if op["op"] == "assembly":
+            op["layouts"] = {str(g): pick(four) for g, four in op["table"]}
+
+
+def gen_kcmf(rng, cid):
+    """one problem type; two meshes (the second one a renumbering of the first with the same Nn, or another mesh);
+    fixed element arrays per mesh; the active mesh changes through the mesh setter and Set_Iter, back and forth;
+    Get_K_C_M_F is read after the changes"""
+    m0 = gen_mesh(rng, 1)
+    gid = 1 + len(m0["groups"])
+    if rng.random() < 0.6:
+        p = list(range(m0["Nn"]))
+        rng.shuffle(p)
+        m1 = {"Nn": m0["Nn"], "groups": [{"gid": gid + i, "type": g["type"], "nPe": g["nPe"], "connect": [[p[x] for x in e] for e in g["connect"]]}
+                                           for i, g in enumerate(m0["groups"])]}
+    else:
+        m1 = gen_mesh(rng, gid)
+    meshes = [m0, m1]
+    maxn = max(g["nPe"] for m in meshes for g in m["groups"])
+    d = rng.randint(1, max(1, min(4, 12 // maxn)))
+    tables = []
+    for m in meshes:
+        table = []
+        for g in m["groups"]:
+            Ne, n = len(g["connect"]), g["nPe"] * d
+            table.append([g["gid"], [gen_values(rng, Ne * n * n, False), None if rng.random() < 0.5 else gen_values(rng, Ne * n * n, False),
+                                     None if rng.random() < 0.7 else gen_values(rng, Ne * n * n, False), None if rng.random() < 0.3 else gen_values(rng, Ne * n, False)]])
+        rng.shuffle(table)
+        tables.append(table)
+    cur, saved = 0, []
+    ops = [{"op": "get", "expect_mesh": 0}]
+    for _ in range(rng.randint(4, 9)):
+        r = rng.random()
+        if r < 0.25:
+            ops.append({"op": "save"})
+            saved.append(cur)
+        elif r < 0.5 and saved:
+            i = rng.randrange(len(saved))
+            cur = saved[i]
+            ops.append({"op": "setiter", "iter": i, "mesh": cur})
+        elif r < 0.75:
+            cur = rng.randrange(2)
+            ops.append({"op": "setmesh", "mesh": cur})
+        elif r < 0.82:
+            ops.append({"op": "needupdate"})
+        elif r < 0.88:
+            ops.append({"op": "clear"})
+        if ops[-1]["op"] in ("setiter", "setmesh") and rng.random() < 0.9 or rng.random() < 0.3:
+            ops.append({"op": "get", "expect_mesh": cur})
+    ops.append({"op": "get", "expect_mesh": cur})
+    conn = {str(g["gid"]): g["connect"] for m in meshes for g in m["groups"]}
+    nPe = {str(g["gid"]): g["nPe"] for m in meshes for g in m["groups"]}
+    return {"id": cid, "kcmf": True, "complex": False, "meshes": meshes, "mesh0": 0, "dof_n": [d], "tables": tables, "ops": ops,
+            "conn": conn, "nPe": nPe}
+
+
 def renumbered(case, rng, cid):
     """the same case with every mesh's nodes renumbered by a random permutation"""
     perms = []
@@ -206,6 +279,13 @@ def emit_defs(case):
         if k == "assembly":
             tb = "[" + ";".join("(%d,(%s,%s,%s,%s))" % ((gid,) + tuple(vals(x, cplx) for x in four)) for gid, four in op["table"]) + "]"
             ops.append("OAssembly %s %d %d %s" % (V, op["pt"], case["dof_n"][op["pt"]], tb))
+        elif k == "get":      # Get_K_C_M_F after the changes = Assembly() of the active mesh with its element arrays
+            tb = "[" + ";".join("(%d,(%s,%s,%s,%s))" % ((gid,) + tuple(vals(x, cplx) for x in four)) for gid, four in case["tables"][op["expect_mesh"]]) + "]"
+            ops.append("OAssembly %s 0 %d %s" % (V, case["dof_n"][0], tb))
+        elif k == "setiter":  # Set_Iter -> __Update_mesh(index of the mesh of that iteration)
+            ops.append("OUpdateMesh %s env_%d %d" % (V, cid, case["meshes"][op["mesh"]]["Nn"]))
+        elif k == "save":
+            ops.append("ONeedUpdate %s" % V)   # Save_Iter does not touch mesh, cache or Ndof
         elif k == "clear":
             ops.append("OClear %s" % V)
         elif k == "setmesh":
@@ -315,24 +395,30 @@ def run(ctx):
 
 def correspondence(ctx):
     rng = ctx.rng
-    ncases = 240 if ctx.tier == "quick" else 2400
-    nren = 40 if ctx.tier == "quick" else 300
+    ncases = 180 if ctx.tier == "quick" else 2400
+    nren = 30 if ctx.tier == "quick" else 300
     cases = [gen_case(rng, i, ctx.tier) for i in range(ncases)]
+    for c in cases:
+        add_layouts(rng, c)
     ren = []
     for j in range(nren):
         base = cases[rng.randrange(ncases)]
         new, perms = renumbered(base, rng, ncases + j)
         ren.append((base["id"], new, perms))
-    allcases = cases + [x[1] for x in ren]
+    nk = 30 if ctx.tier == "quick" else 300
+    kcmf = [gen_kcmf(rng, ncases + nren + j) for j in range(nk)]
+    for c in kcmf:
+        add_layouts(rng, c)
+    allcases = cases + [x[1] for x in ren] + kcmf
     byid = {c["id"]: c for c in allcases}
 
     # ---- implementation ----
-    chunks = [allcases[i::4] for i in range(4)]
+    chunks = [allcases[i::3] for i in range(3)]
 
     def run_impl(chunk):
         return ctx.impl_python(IMPL, input=json.dumps({"cases": chunk}), timeout=1500)
     results = {}
-    with concurrent.futures.ThreadPoolExecutor(4) as ex:
+    with concurrent.futures.ThreadPoolExecutor(3) as ex:
         for rc, out, err in ex.map(run_impl, chunks):
             if rc != 0:
                 ctx.obligation("corr:impl-run", False, err[-1500:])
@@ -354,11 +440,26 @@ def correspondence(ctx):
         elif res["prop_fail"]:
             pf = res["prop_fail"]
             bad_impl.append((cid, "Assembly #%d slot %s is not the dense scatter-add" % (pf["assembly_index"], pf["slot"]), pf))
-    for cid, what, pf in bad_impl[:3]:
+    seen_keys = set()
+    for cid, what, pf in sorted(bad_impl, key=lambda t: t[0]):
         case = byid[cid]
+        if not pf:
+            key = "assembly-raises"
+        elif case.get("kcmf"):
+            key = "assembly-not-scatter-add:active-mesh-history"
+            what = "Get_K_C_M_F #%d slot %s is not the scatter-add for the active mesh (active mesh %s, expected %s) after %s" % (
+                pf["assembly_index"], pf["slot"], pf.get("active_mesh"), pf.get("expected_mesh"), [o["op"] for o in case["ops"][:pf["op_index"] + 1]])
+        elif pf.get("contiguous_ok"):
+            key = "assembly-not-scatter-add:array-layout"
+            lay = case["ops"][pf["op_index"]].get("layouts")
+            what += "; the SAME values given as C-contiguous ndarrays assemble correctly: the result depends on the memory layout / array class of the element arrays (layouts %s)" % json.dumps(lay)
+        else:
+            key = "assembly-not-scatter-add"
+        if key in seen_keys:
+            continue
+        seen_keys.add(key)
         small = shrink_case(case, pf["op_index"]) if pf else case
-        ctx.violation("assembly-not-scatter-add" if pf else "assembly-raises",
-                      "case %d (dof_n=%s, complex=%s): %s" % (cid, case["dof_n"], case["complex"], what),
+        ctx.violation(key, "case %d (dof_n=%s, complex=%s): %s" % (cid, case["dof_n"], case["complex"], what),
                       {"replay_py": REPLAY % dict(case=json.dumps(small), expected=None), "case": small, "detail": pf}, found_input=True)
     split_obl(ctx, "corr:impl-satisfies-dense-predicate", len(bad_impl), len(results), "; ".join("%d %s" % (c, w) for c, w, _ in bad_impl[:5]))
 
@@ -375,7 +476,7 @@ def correspondence(ctx):
         return fb[0], ctx.coq_eval(fb[0], fb[1], timeout=900)
     verdict = {}
     model_keys = {}
-    with concurrent.futures.ThreadPoolExecutor(4) as ex:
+    with concurrent.futures.ThreadPoolExecutor(3) as ex:
         for fname, (rc, out) in ex.map(run_coq, files):
             if rc != 0:
                 ctx.obligation("corr:model-eval:" + fname, False, out[-1500:])
@@ -441,6 +542,13 @@ def correspondence(ctx):
         cur = 0
         for op in c["ops"]:
             dist["ops"][op["op"]] = dist["ops"].get(op["op"], 0) + 1
+            if op["op"] == "get":
+                dist["get_kcmf"] = dist.get("get_kcmf", 0) + 1
+                ctx.note_case("kcmf:%d:%d" % (c["id"], dist["get_kcmf"]), traces=1)
+            for lay in (op.get("layouts") or {}).values():
+                for code in lay:
+                    if code:
+                        dist.setdefault("layouts", {})[code] = dist.setdefault("layouts", {}).get(code, 0) + 1
             if op["op"] == "assembly":
                 dist["assemblies"] += 1
                 dist["groups_per_table"][len(op["table"])] = dist["groups_per_table"].get(len(op["table"]), 0) + 1
@@ -513,7 +621,7 @@ _BIG = re.compile(r"=\s*\((\d+),\s*(\d+),\s*(true|false)\)\s*:")
 
 def big_index(ctx):
     rng = ctx.rng
-    n = 8 if ctx.tier == "quick" else 40
+    n = 6 if ctx.tier == "quick" else 40
     cases = [gen_big(rng, 900000 + i) for i in range(n)]
     rc, out, err = ctx.impl_python(IMPL, input=json.dumps({"cases": cases}), timeout=900)
     if rc != 0 or "@@JSON@@" not in out:
